@@ -534,11 +534,19 @@ def query_rule(ctx, prog, ci, rule):
             okn = nside is not None and depth_txt is not None and \
                 norm(nside).replace(" ", "") in ("2**" + depth_txt,
                                                  "1<<" + depth_txt)
-            ctx.check(rule, fi, "nside of " + norm(c, 70), okn,
-                      "the query resolution %s must be 2**%s, the depth the "
-                      "pixels are stored under" %
-                      (norm(nside) if nside is not None else None,
-                       depth_txt), node=c)
+            if depth_txt is None:
+                msg = ("the pixels returned by this query are not handed to "
+                       "add_pixels as they are (they are filtered, "
+                       "intersected or combined first, or not stored at "
+                       "all): the stored set is no longer the inclusive "
+                       "cover of the shape at resolution %s" %
+                       (norm(nside) if nside is not None else None))
+            else:
+                msg = ("the query resolution %s must be 2**%s, the depth "
+                       "the pixels are stored under" %
+                       (norm(nside) if nside is not None else None,
+                        depth_txt))
+            ctx.check(rule, fi, "nside of " + norm(c, 70), okn, msg, node=c)
     ctx.floor(rule, n, 2, "healpy query calls")
     # the storage level is the requested depth, whatever the shape's size
     for m in ("add_circles", "add_poly"):
